@@ -60,6 +60,12 @@ fn writers() -> Result<Vec<W>, String> {
         v.push((name, Box::new(move |s| { let mut w = match noodles_util::alignment::io::writer::Builder::default().set_format(fmt).set_compression_method(cm).build_from_writer(s) { Ok(w) => w, Err(e) => return (vec![Err(e)], Box::new(()) as Box<dyn std::any::Any>) };
             let mut r = vec![w.write_header(&h)]; for x in rs.iter() { r.push(w.write_record(&h, x)); } r.push(w.finish(&h)); (r, Box::new(w) as Box<dyn std::any::Any>) }), None));
     }
+    // the generic noodles-util variant writer: it has NO finish at all (recorded finding F61)
+    for (name, fmt, cm) in [("util variant writer [VCF]", noodles_util::variant::io::Format::Vcf, None), ("util variant writer [VCF.gz]", noodles_util::variant::io::Format::Vcf, Some(noodles_util::variant::io::CompressionMethod::Bgzf)), ("util variant writer [BCF]", noodles_util::variant::io::Format::Bcf, Some(noodles_util::variant::io::CompressionMethod::Bgzf)), ("util variant writer [raw BCF]", noodles_util::variant::io::Format::Bcf, None)] {
+        let (h, rs) = (vh.clone(), vrecs.clone());
+        v.push((name, Box::new(move |s| { let mut w = noodles_util::variant::io::writer::Builder::default().set_format(fmt).set_compression_method(cm).build_from_writer(s);
+            let mut r = vec![w.write_header(&h)]; for x in rs.iter() { r.push(w.write_record(&h, x)); } (r, Box::new(w) as Box<dyn std::any::Any>) }), None));
+    }
     v.push(("fasta::io::Writer", Box::new(|s| { let mut w = noodles_fasta::io::Writer::new(s); let mut r = Vec::new(); for i in 0..8 { let rec = noodles_fasta::Record::new(noodles_fasta::record::Definition::new(format!("sq{i}"), if i % 2 == 0 { Some(bstr::BString::from("d e")) } else { None }), noodles_fasta::record::Sequence::from(b"ACGT".repeat(40 + i))); r.push(w.write_record(&rec)); } (r, Box::new(w) as Box<dyn std::any::Any>) }), None));
     v.push(("fastq::io::Writer", Box::new(|s| { let mut w = noodles_fastq::io::Writer::new(s); let mut r = Vec::new(); for i in 0..12 { let rec = noodles_fastq::Record::new(noodles_fastq::record::Definition::new(format!("r{i}"), if i % 2 == 0 { "d" } else { "" }), "ACGTACGT", "II@+IIII"); r.push(w.write_record(&rec)); } (r, Box::new(w) as Box<dyn std::any::Any>) }), None));
     v.push(("gff::io::Writer", Box::new(|s| { let mut w = noodles_gff::io::Writer::new(s); let mut r = vec![w.write_directive(&noodles_gff::DirectiveBuf::new("gff-version", Some(noodles_gff::directive_buf::Value::GffVersion(Default::default()))))]; for i in 0..10 { let rec = noodles_gff::feature::RecordBuf::builder().set_reference_sequence_name(format!("sq{i}")).set_source("src").set_type("gene").set_start(noodles_core::Position::new(1 + i).unwrap()).set_end(noodles_core::Position::new(100 + i).unwrap()).build(); r.push(w.write_record(&rec)); } (r, Box::new(w) as Box<dyn std::any::Any>) }), None));
@@ -92,10 +98,13 @@ pub fn writer_sinks(tier: &str) -> Result<String, String> {
     let mut cases = 0u64;
     std::panic::set_hook(Box::new(|_| {}));
     for (name, run, decode) in &ws {
-        let go = |mode: Mode| -> Result<(Vec<io::Result<()>>, Vec<u8>, usize), String> { let st = Arc::new(Mutex::new(State::default())); let s = Sink { st: st.clone(), mode };
-            let (r, keep) = std::panic::catch_unwind(std::panic::AssertUnwindSafe(|| run(s))).map_err(|_| "PANICS".to_string())?; let snap = { let g = st.lock().unwrap(); (g.out.clone(), g.writes) }; let _ = std::panic::catch_unwind(std::panic::AssertUnwindSafe(move || drop(keep))); Ok((r, snap.0, snap.1)) };
-        let (r0, reference, n_writes) = match go(Mode::All) { Ok(x) => x, Err(e) => { fails.insert(format!("{name} baseline"), format!("writer sinks [{name}]: {e} on a plain sink")); continue; } };
+        let go = |mode: Mode| -> Result<(Vec<io::Result<()>>, Vec<u8>, usize, usize), String> { let st = Arc::new(Mutex::new(State::default())); let s = Sink { st: st.clone(), mode };
+            let (r, keep) = std::panic::catch_unwind(std::panic::AssertUnwindSafe(|| run(s))).map_err(|_| "PANICS".to_string())?; let snap = { let g = st.lock().unwrap(); (g.out.clone(), g.writes) }; let _ = std::panic::catch_unwind(std::panic::AssertUnwindSafe(move || drop(keep))); let after_drop = st.lock().unwrap().out.len(); Ok((r, snap.0, snap.1, after_drop)) };
+        let (r0, reference, n_writes, after_drop) = match go(Mode::All) { Ok(x) => x, Err(e) => { fails.insert(format!("{name} baseline"), format!("writer sinks [{name}]: {e} on a plain sink")); continue; } };
         if let Some(e) = r0.iter().find_map(|r| r.as_ref().err()) { fails.insert(format!("{name} baseline"), format!("writer sinks [{name}]: a call fails on a plain sink: {e}")); continue; }
+        // everything but (at most) the 28-byte BGZF EOF marker must have reached the sink once the last explicit call has returned Ok:
+        // what is written only when the writer is dropped cannot report a failure
+        if after_drop > reference.len() + 28 { fails.insert(format!("{name} deferred"), format!("writer sinks [{name}]: every call, finish included, returned Ok while {} of {} bytes were still unwritten — they reach the sink only when the writer is dropped, where a failure is ignored", after_drop - reference.len(), after_drop)); continue; }
         let canon = |b: &[u8]| -> Result<Vec<String>, String> { match decode { Some(d) => d(b), None => Ok(vec![format!("{} bytes", b.len()), b.iter().fold(0xcbf29ce484222325u64, |h, x| (h ^ *x as u64).wrapping_mul(0x100000001b3)).to_string()]) } };
         let want = canon(&reference).map_err(|e| format!("{name}: the reference output does not decode: {e}"))?;
         // (a) short writes and spurious Interrupted
@@ -103,7 +112,7 @@ pub fn writer_sinks(tier: &str) -> Result<String, String> {
             cases += 1;
             let what = match mode { Mode::Short(_) => "a sink that accepts only part of each buffer", _ => "a sink that reports Interrupted now and then" };
             match go(mode) { Err(e) => { fails.entry(format!("{name} {what} panic")).or_insert_with(|| format!("writer sinks [{name}]: {e} with {what} ({mode:?})")); }
-                Ok((r, out, _)) => { if let Some(e) = r.iter().find_map(|r| r.as_ref().err()) { fails.entry(format!("{name} {what} err")).or_insert_with(|| format!("writer sinks [{name}]: with {what} ({mode:?}) a call fails: {e} ({:?})", e.kind())); }
+                Ok((r, out, _, _)) => { if let Some(e) = r.iter().find_map(|r| r.as_ref().err()) { fails.entry(format!("{name} {what} err")).or_insert_with(|| format!("writer sinks [{name}]: with {what} ({mode:?}) a call fails: {e} ({:?})", e.kind())); }
                     else { match canon(&out) { Ok(got) if got == want => {} Ok(_) => { fails.entry(format!("{name} {what} bytes")).or_insert_with(|| format!("writer sinks [{name}]: with {what} ({mode:?}) every call returns Ok but the sink holds {} bytes that differ from the {} bytes a plain sink gets", out.len(), reference.len())); } Err(e) => { fails.entry(format!("{name} {what} bytes")).or_insert_with(|| format!("writer sinks [{name}]: with {what} ({mode:?}) every call returns Ok but the sink holds a file that does not decode ({e}); {} bytes instead of {}", out.len(), reference.len())); } } } } }
         }
         // (b) the j-th write call of the sink fails, and every later one
@@ -111,7 +120,7 @@ pub fn writer_sinks(tier: &str) -> Result<String, String> {
         for j in js {
             cases += 1;
             match go(Mode::FailAt(j)) { Err(e) => { fails.entry(format!("{name} fail panic")).or_insert_with(|| format!("writer sinks [{name}]: {e} when write call {j} of the sink fails")); }
-                Ok((r, _, _)) => { match r.iter().find_map(|r| r.as_ref().err()) {
+                Ok((r, _, _, _)) => { match r.iter().find_map(|r| r.as_ref().err()) {
                     None => { fails.entry(format!("{name} hidden")).or_insert_with(|| format!("writer sinks [{name}]: write call {j} of {n_writes} of the sink fails (and every later one) but ALL {} calls on the writer, finish included, return Ok", r.len())); }
                     Some(e) => if !is_injected(e) { fails.entry(format!("{name} other error")).or_insert_with(|| format!("writer sinks [{name}]: write call {j} of the sink fails with Other \"injected failure ..\" but the writer reports {:?} \"{e}\"", e.kind())); } } } }
         }
